@@ -99,7 +99,7 @@ fn c16_spec() -> CheckSpec {
         ],
         real_components: vec!["a2lfile: tokenizer (include resolution), loader (make_include_filename, load, decoding), a2ml tokenizer (A2ML-level include), parser, writer, merge_includes", "std Read::read_to_end"],
         stubbed_components: vec!["file system (in-memory VFS with directories, CWD, fault plan, call trace)", "OS randomness feeding std RandomState"],
-        expected_probes: vec!["include-resolved-at-depth>=2", "include-resolved-at-depth-3", "EINTR-retried", "empty-include-file", "comment-only-include-file", "decoy-at-cwd-relative-location", "include-inside-if_data", "a2ml-include-inside-an-included-file", "include-file-in-utf16", "include-name-with-special-characters", "a2ml-include-name-with-special-characters"],
+        expected_probes: vec!["include-resolved-at-depth>=2", "include-resolved-at-depth-3", "EINTR-retried", "empty-include-file", "comment-only-include-file", "decoy-at-cwd-relative-location", "include-inside-if_data", "a2ml-include-inside-an-included-file", "include-file-in-utf16", "include-name-with-special-characters", "a2ml-include-name-with-special-characters", "a2ml-include-file-ends-in-line-comment-without-line-break", "same-file-included-twice-in-one-block"],
         plans: vec![
             ScenarioPlan { scenario: Box::new(c16::C16Includes), quick_runs: 6_000, thorough_runs: 200_000 },
             ScenarioPlan { scenario: Box::new(c16::C16Cycles), quick_runs: 64, thorough_runs: 512 },
